@@ -285,8 +285,8 @@ PROPS["C20"] = {
                    "quick run with logical deadlock detection, overlap detection and differential result check"),
     "level_note": "trusted: hook H2 event placement (add-only), the scheduler in c20.rs",
     "technique": "controlled-schedule concurrency testing of the real code (hook-driven baton scheduler, random + PCT strategies) with online protocol monitors",
-    "quick": {"cases": 1500, "floor": 200, "time_budget": 240},
-    "thorough": {"cases": 40000, "floor": 5000, "time_budget": 3000},
+    "quick": {"cases": 500, "floor": 60, "time_budget": 240},
+    "thorough": {"cases": 20000, "floor": 2500, "time_budget": 3000},
 }
 
 ALL = ["C%02d" % i for i in range(1, 21)]
